@@ -92,10 +92,10 @@ Proof.
   eapply put_st_len. eassumption.
 Qed.
 
-Lemma cb_encode_len table max_sat sat_bits : keeps_len (cb_encode table max_sat sat_bits).
+Lemma cb_encode_len table max_sat sat_bits cap : keeps_len (cb_encode table max_sat sat_bits cap).
 Proof.
   intros st v st' H. unfold cb_encode in H. destruct v; try discriminate.
-  destruct (entries_of_vals l); [|discriminate]. bind_inv H. destruct (_ <? _); [discriminate|]. bind_inv H.
+  destruct (entries_of_vals l); [|discriminate]. destruct (_ <? _); [discriminate|]. bind_inv H. destruct (_ <? _); [discriminate|]. bind_inv H.
   apply cb_sats_len in H. rewrite H. eapply put_st_len. eassumption.
 Qed.
 
@@ -176,14 +176,15 @@ Qed.
 Section Frag.
   Variable sigt : gnss -> sigtable.
   Variable ssr59 ssr65 : sigtable.
+  Variable cap59 cap65 : Z.
 
   Lemma encode_list_len (P : frag -> Prop) :
-    forall fl, Forall (fun f => keeps_len (encode_frag sigt ssr59 ssr65 f)) fl ->
+    forall fl, Forall (fun f => keeps_len (encode_frag sigt ssr59 ssr65 cap59 cap65 f)) fl ->
     forall vs st st',
       (fix go (fl : list frag) (vs : list val) (st : astate) {struct fl} : outcome astate :=
          match fl, vs with
          | [], [] => Ok st
-         | f' :: fl', v' :: vs' => st' <- encode_frag sigt ssr59 ssr65 f' st v' ;; go fl' vs' st'
+         | f' :: fl', v' :: vs' => st' <- encode_frag sigt ssr59 ssr65 cap59 cap65 f' st v' ;; go fl' vs' st'
          | _, _ => Panic
          end) fl vs st = Ok st' -> zlen (fst st') = zlen (fst st).
   Proof.
@@ -192,19 +193,19 @@ Section Frag.
     - destruct vs as [|v vs]; [discriminate|]. bind_inv H. apply IH in H. rewrite H. eapply Hf. eassumption.
   Qed.
 
-  Lemma encode_elems_len elem : keeps_len (encode_frag sigt ssr59 ssr65 elem) ->
+  Lemma encode_elems_len elem : keeps_len (encode_frag sigt ssr59 ssr65 cap59 cap65 elem) ->
     forall l st st',
       (fix elems (l : list val) (st : astate) {struct l} : outcome astate :=
          match l with
          | [] => Ok st
-         | x :: r => st' <- encode_frag sigt ssr59 ssr65 elem st x ;; elems r st'
+         | x :: r => st' <- encode_frag sigt ssr59 ssr65 cap59 cap65 elem st x ;; elems r st'
          end) l st = Ok st' -> zlen (fst st') = zlen (fst st).
   Proof.
     intros He. induction l as [|x r IH]; intros st st' H; [inversion H; reflexivity|].
     bind_inv H. apply IH in H. rewrite H. eapply He. eassumption.
   Qed.
 
-  Theorem encode_frag_len : forall f, keeps_len (encode_frag sigt ssr59 ssr65 f).
+  Theorem encode_frag_len : forall f, keeps_len (encode_frag sigt ssr59 ssr65 cap59 cap65 f).
   Proof.
     apply frag_ind'.
     - intros fs. exact (encode_field_len fs).
